@@ -10,11 +10,20 @@ use unicode_width::UnicodeWidthChar;
 
 mod drivers;
 
-/// a length in ticks (1/40 of a cell width), snapped to the 1/64 tick grid
+/// a length in ticks (1/40 of a cell width): a whole number of ticks when the f32 is within
+/// its own rounding error of one (f32 carries about 7 digits, so the tolerance grows with the
+/// magnitude), else a multiple of 1/64 tick, else flagged with '~'
 fn q(v: f32) -> String {
     let t = v as f64 * 40.0;
+    if !t.is_finite() {
+        return format!("~{}", v);
+    }
+    let r = t.round();
+    if (t - r).abs() <= 0.02 + 4e-6 * t.abs() {
+        return format!("{}", r as i64);
+    }
     let s = (t * 64.0).round();
-    if (t * 64.0 - s).abs() > 0.01 || !t.is_finite() {
+    if (t * 64.0 - s).abs() > 0.01 + 4e-6 * (t * 64.0).abs() {
         return format!("~{}", v);
     }
     let n = s as i64;
